@@ -53,9 +53,10 @@ VARIABLES head, lo,           \* store
           cbs,                \* address -> stream whose callback is registered (0 = none)
           ch, q, wk, item,    \* per registration: channel state, queue, worker state, item in hand
           pc, from, cur, snap, pos, sent, phase, cons, ctxd, err, why,
-          nfault
+          nfault,
+          due                 \* history: rounds put into the queue of each stream's registration (see DueUpdate)
 
-vars == <<head, lo, wr, lockW, cbs, ch, q, wk, item, pc, from, cur, snap, pos, sent, phase, cons, ctxd, err, why, nfault>>
+vars == <<head, lo, wr, lockW, cbs, ch, q, wk, item, pc, from, cur, snap, pos, sent, phase, cons, ctxd, err, why, nfault, due>>
 
 AddrOf(s) == IF SameAddr THEN 1 ELSE s
 Addrs == {AddrOf(s) : s \in Streams}
@@ -117,6 +118,7 @@ Init ==
   /\ err = [s \in Streams |-> "none"]
   /\ why = [s \in Streams |-> "none"]
   /\ nfault = 0
+  /\ due = [s \in Streams |-> {}]
 
 \* gRPC cancels the stream context when the handler returns
 CtxDone(s) == ctxd[s] \/ pc[s] = "ended"
@@ -315,7 +317,12 @@ StreamNext == \E s \in Streams : (\E f \in Froms : Open(s, f)) \/ ScanBegin(s) \
                                   \/ RegisterUnblock(s) \/ LiveEnd(s)
 EnvNext == \E s \in Streams, k \in Faults : Fault(s, k)
 SysNext == WriterNext \/ WorkerNext \/ StreamNext
-Next == SysNext \/ EnvNext
+\* bookkeeping of the history variable, conjoined to every step: a queue grows by at most one item
+\* per step (a dispatched round, or the close pair)
+DueUpdate == due' = [s \in Streams |->
+                       IF Len(q'[s]) > Len(q[s]) /\ q'[s][Len(q'[s])] # CLOSE THEN due[s] \cup {q'[s][Len(q'[s])]}
+                       ELSE due[s]]
+Next == (SysNext \/ EnvNext) /\ DueUpdate
 Spec == Init /\ [][Next]_vars
 
 -----------------------------------------------------------------------------
@@ -356,7 +363,13 @@ WantsLock(s) == \/ pc[s] = "afterScan"
                 \/ wk[s] = "busy" /\ cons[s] = "disc"
 \* a stream other than the stalled one is never held up by the stalled consumer
 Mon_OthersServed == ~(LockWedged /\ \E s \in Streams : cons[s] # "stalled" /\ WantsLock(s))
-Mon_C12_callbacks == Mon_PutNeverWaitsOnConsumer /\ Mon_OthersServed
+\* ... and keeps being served: once the queue of a healthy, registered stream is drained and its worker
+\* is idle it has been handed every round dispatched to it, whatever the consumers of other
+\* registrations - in particular of the same-address predecessor it replaced - are doing
+ServedDue(s) == (/\ pc[s] = "live" /\ Healthy(s) /\ err[s] = "none" /\ ch[s] = "open"
+                 /\ Len(q[s]) = 0 /\ wk[s] = "idle") => due[s] \subseteq Range(sent[s])
+Mon_ReplacementServed == \A s \in Streams : ServedDue(s)
+Mon_C12_callbacks == Mon_PutNeverWaitsOnConsumer /\ Mon_OthersServed /\ Mon_ReplacementServed
 
 -----------------------------------------------------------------------------
 TypeOK ==
